@@ -118,6 +118,16 @@ CHECKS = {
           'merging records and translates every copied constituent unconditionally.',
   'note': 'Correctness and type preservation of the resulting schema, and totality of the translations as data, are value-level and not decided. EntityTranslation::SuperposeWith/SubstituteValues themselves are trusted (header-only helpers).',
  },
+ 'C03': {
+  'technique': 'whole-program "loud refusal" fixpoint over the auditors\' CFGs (every refusing return is dominated by an error report or is the propagation of a loud callee), '
+               'error-position provenance rule, scope pairing path rule, finite-domain evaluation of the value/property rules, of the bound-variable scope functions and of the type algebra '
+               '(Merge / AreCompatible / CompareTemplated) extracted from the source against an order-theoretic reference, CstType predicate tables',
+  'text': 'Decides: a rejected expression always carries an error (three silent rejections found and fixed); reported positions derive from the node being checked; scopes are closed on every success path and declaration flags '
+          'change only through RAII guards; each ValueAuditor rule implements the value/property table on every operand-class vector; AddLocalVariable/StartScope/EndScope/GetLocalTypification follow the scope discipline on every variable state; '
+          'Merge is the least upper bound of the specificity order (any-type below everything, integers below constant sets), AreCompatible its existence, and CompareTemplated binds each radical to the least upper bound of its arguments '
+          'over a universe of 49 typifications; the constituent-kind predicates and CheckConstituenta constraints.',
+  'note': 'The per-construct typing rules (ViDecart ... ViRecursion) are not compared with an independent statement of the RSLang type system: principal types of whole expressions are NOT decided. The type algebra is decided on a bounded universe (depth <= 2, arity <= 3).',
+ },
  'C19': {
   'technique': 'CO-UPDATE and guard-before-mutation path rules, who-may-write inventory for the hash / outdated flags, call-chain + guard rule for the outdated propagation, order rule for the execution pipeline',
   'text': 'Decides: a pictogram enters and leaves all its tables together; operations are created only for two distinct existing operands recorded as parents, only leaves can be erased, refusals precede any change; '
